@@ -357,6 +357,126 @@ def stress_cases(rs, tier):
     return out
 
 
+def absorbed_cases(rs, count):
+    """special values: positive lengths that are absorbed in floating point (a + b == b): 1.5e-300 (2^-996) next to 1 and 2,
+    2^-60 next to 2^10 and 2^11.  ('F', float matrix, label); weighted routines only; no model line (float addition is not a
+    rational length function), judged by `brandes_batch_float`"""
+    out = []
+    pairs = [(2.0 ** -996, 1.0), (2.0 ** -60, 2.0 ** 10)]
+
+    def add(W, label):
+        out.append(('F', tuple(tuple(float(x) for x in r) for r in W), label))
+
+    for (t, b) in pairs:
+        # chain s -b-> a -t-> c -b-> e : c sits at the float distance of the settled node a
+        W = np.zeros((4, 4)); W[0, 1] = b; W[1, 2] = t; W[2, 3] = b
+        add(W, 'absorbed:chain'); add(W + W.T, 'absorbed:chain-und')
+        # diamond with an absorbed step on one route: 0->1->3 (b+b) ties with 0->2->4->3 (b + t + b)
+        W = np.zeros((5, 5)); W[0, 1] = b; W[1, 3] = b; W[0, 2] = b; W[2, 4] = t; W[4, 3] = b
+        add(W, 'absorbed:diamond'); add(W + W.T, 'absorbed:diamond-und')
+    for k in range(count):
+        n = int(rs.randint(4, 9))
+        directed = bool(rs.rand() < .6)
+        t, b = pairs[k % 2]
+        A = rand_graph(rs, n, float(rs.choice([.3, .45, .6])), directed)
+        big = rs.choice([b, b, 2 * b], size=(n, n))
+        tiny = rs.rand(n, n) < float(rs.choice([.15, .3]))
+        W = np.where(tiny, t, big)
+        if not directed:
+            W = np.triu(W, 1); W = W + W.T
+        add(A * W, 'absorbed:random')
+    return out
+
+
+def brandes_batch_float(W):
+    """betweenness under floating-point path lengths (lengths accumulated from the source with float additions, exactly as
+    numpy adds them; ties by exact float equality): level-by-level Dijkstra, integer path counts, Fraction dependencies.
+    Returns (BC, EBC, ambiguous): ambiguous = some source has two nodes of one level joined by a step of zero effective
+    length (m + l == m), where 'shortest path' is not well defined -- such inputs are not judged."""
+    n = len(W)
+    INF = float('inf')
+    BC = [Fr(0)] * n
+    EBC = [[Fr(0)] * n for _ in range(n)]
+    amb = False
+    for s in range(n):
+        d = [INF] * n; d[s] = 0.0
+        sig = [0] * n; sig[s] = 1
+        preds = [[] for _ in range(n)]
+        settled = [False] * n; order = []
+        while True:
+            rest = [d[i] for i in range(n) if not settled[i]]
+            if not rest or min(rest) == INF:
+                break
+            m = min(rest)
+            batch = [i for i in range(n) if not settled[i] and d[i] == m]
+            for v in batch:
+                settled[v] = True; order.append(v)
+            for v in batch:
+                for w in range(n):
+                    l = W[v][w]
+                    if l == 0 or w == v:
+                        continue
+                    if w in batch:
+                        if m + l == m:
+                            amb = True
+                        continue
+                    if settled[w]:
+                        continue
+                    nd = d[v] + l
+                    if nd < d[w]:
+                        d[w] = nd; sig[w] = sig[v]; preds[w] = [v]
+                    elif nd == d[w]:
+                        sig[w] += sig[v]; preds[w].append(v)
+        dep = [Fr(0)] * n
+        for w in reversed(order):
+            for v in preds[w]:
+                c = Fr(sig[v], sig[w]) * (1 + dep[w])
+                dep[v] += c; EBC[v][w] += c
+            if w != s:
+                BC[w] += dep[w]
+    return BC, EBC, amb
+
+
+def run_float_case(case, bct, R, cnt):
+    """absorbed-length inputs: the two weighted routines against brandes_batch_float"""
+    W = [list(r) for r in case[1]]
+    n = len(W)
+    A = np.array(W, dtype=float)
+    BC, EBC, amb = brandes_batch_float(W)
+    R['evals'] += 1
+    cnt('n=%d' % n); cnt('weighted'); cnt(case[2]); cnt('float-lengths(absorbed)')
+    if amb:
+        cnt('absorbed:ambiguous(not judged)')
+        return
+    if any(b != 0 for b in BC):
+        R['keys'].append(digest(W))
+    outs = {}
+    for f in ROUT_WEI:
+        A0 = A.copy()
+        st, o = call(getattr(bct, f), A0, t=5.0, retry=10)
+        cnt('calls:' + f); cnt(st + ':' + f)
+        cond = {'routine': f, 'length_absorbed': True, 'binary': False}
+        det = {'W': W, 'label': case[2]}
+        if st == 'timeout':
+            R['viol'].append((f, 'does-not-return', det, cond)); continue
+        if st == 'exc':
+            R['viol'].append((f, 'raises', dict(det, exception=o), cond)); continue
+        if not np.array_equal(A0, A):
+            R['viol'].append((f, 'input-modified', det, cond))
+        if f.startswith('edge'):
+            ebc, bc = np.asarray(o[0], dtype=float).tolist(), np.asarray(o[1], dtype=float).ravel().tolist()
+            if not vec_close([x for r in ebc for x in r], [x for r in EBC for x in r]):
+                R['viol'].append((f, 'edge-betweenness', dict(det, returned=ebc, expected=[[str(x) for x in r] for r in EBC]), cond))
+        else:
+            bc = np.asarray(o, dtype=float).ravel().tolist()
+        outs[f] = bc
+        if not vec_close(bc, BC):
+            R['viol'].append((f, 'node-betweenness', dict(det, returned=bc, expected=[str(x) for x in BC]), cond))
+    if len(outs) == 2 and not vec_close(outs['edge_betweenness_wei'], outs['betweenness_wei']):
+        R['viol'].append(('edge_betweenness_wei', 'edge-node-vector', {'W': W, 'label': case[2], 'edge_routine_BC': outs['edge_betweenness_wei'],
+                          'node_routine_BC': outs['betweenness_wei']}, {'routine': 'edge_betweenness_wei', 'length_absorbed': True, 'binary': False}))
+
+
 def brandes_exact(L):
     """independent Brandes for large graphs with non-negative integer lengths: Dijkstra with a heap, shortest-path counts as
     exact Python integers (they reach 3^40 and beyond), dependencies in 80-digit Decimal arithmetic (error ~1e-78 relative,
@@ -495,6 +615,9 @@ def run_chunk(arg):
 
     lines, meta = [], []
     for case in cases:
+        if case[0] == 'F':
+            run_float_case(case, bct, R, cnt)
+            continue
         rep = None
         if case[0] == 'R':
             rep = (case[2], case[3]); case = case[1]
@@ -737,8 +860,11 @@ def main():
                 ck.violation(rc['probe']['second'], 'result-depends-on-history', {'probe': rc['probe'], 'disagreement': d},
                              {'routine': rc['probe']['second'], 'after': rc['probe']['first'], 'mode': rc['probe']['mode']})
             ck.finish()
+        if 'W' in rc:
+            cases = [('F', tuple(tuple(float(x) for x in r) for r in rc['W']), rc.get('label', 'absorbed:replay'))]
+            rc = dict(rc, L=[[0]], den=1, dtype=None)
         Lr = tuple(tuple(int(x) for x in r) for r in rc['L'])
-        cases = [('Q', Lr, int(rc['den']))] if int(rc.get('den', 1)) != 1 else [('M', Lr)]
+        cases = cases if 'W' in rc else [('Q', Lr, int(rc['den']))] if int(rc.get('den', 1)) != 1 else [('M', Lr)]
         if rc.get('dtype'):
             cases = [('R', cases[0], rc['dtype'], rc.get('order', 'C'))]
     elif ck.tier == 'thorough':
@@ -748,7 +874,7 @@ def main():
         for n in (2, 3, 4, 5):
             cases += enum_cases(n, False, 2) + enum_cases(n, False, 3)
         ck.cov['exhaustive'] = True
-        cases += structured() + random_cases(rs, 6000) + rational_cases(rs, 6000, 'thorough') + near_tie_cases(rs, 4000) + big_cases(rs, 'thorough') + stress_cases(rs, 'thorough') + malformed_cases(rs, 400)
+        cases += structured() + random_cases(rs, 6000) + rational_cases(rs, 6000, 'thorough') + near_tie_cases(rs, 4000) + big_cases(rs, 'thorough') + stress_cases(rs, 'thorough') + absorbed_cases(rs, 3000) + malformed_cases(rs, 400)
     else:
         cases = []
         for n in (1, 2, 3):
@@ -757,7 +883,7 @@ def main():
             cases += enum_cases(n, False, 2) + enum_cases(n, False, 3)
         cases += enum_cases(4, True, 2) + enum_cases(4, True, 3, rs, 3000)
         cases += enum_cases(5, False, 2) + enum_cases(5, False, 3, rs, 1500)
-        cases += structured() + random_cases(rs, 800) + rational_cases(rs, 1200, 'quick') + near_tie_cases(rs, 600) + big_cases(rs, 'quick') + stress_cases(rs, 'quick') + malformed_cases(rs, 100)
+        cases += structured() + random_cases(rs, 800) + rational_cases(rs, 1200, 'quick') + near_tie_cases(rs, 600) + big_cases(rs, 'quick') + stress_cases(rs, 'quick') + absorbed_cases(rs, 300) + malformed_cases(rs, 100)
     if not ck.replay:     # homogeneous chunks: seeded shuffle, then one chunk per worker in the quick tier
         perm = np.random.RandomState(ck.seed + 12345).permutation(len(cases))
         cases = [cases[i] for i in perm]
